@@ -21,14 +21,14 @@ RULE = ("response frames built from every valid kind (state, capabilities, prope
         "shorter than the header), every count byte and every size byte set to 0..255, every response id 0..255 with random "
         "bodies of length 0..60 and frame types 0..7, oversized frames, and fields pointing past the end; delivered alone or in "
         "mixes [bad*, good, bad*] as the answer to every request of an operation (refresh, apply with/without pending property "
-        "updates, get_capabilities first/additional page, toggle_display, start_self_clean). Oracle: the operation returns "
+        "updates, get_capabilities first/additional page, toggle_display, start_self_clean, and short sequences of them under the same device). Oracle: the operation returns "
         "without raising; for mixes whose bad members are undecodable or irrelevant by specification, the client's state after "
         "the operation equals the state after the same operation with only the good frames. Non-trivial: the bad frame passes "
         "Frame.validate and (where applicable) the body check. Distinct by (frames, operation).")
 ASSUMPTIONS = ["'irrelevant by specification' = bad checksum, shorter than header+id, unknown response id, state body shorter than 16 "
                "bytes, group-data body shorter than the fixed offsets of its group (19 for energy, 5 for humidity)"]
 
-OPS = ["refresh", "apply", "apply_props", "caps", "toggle", "clean"]
+OPS = ["refresh", "apply", "apply_props", "caps", "toggle", "clean", "refresh,apply", "caps,refresh,apply_props", "refresh,toggle,apply"]
 
 
 def rebuild(ftype: int, body_wo_check: bytes, check: str = "crc") -> bytes:
@@ -100,6 +100,11 @@ def irrelevant_by_spec(frame: bytes) -> bool:
 
 async def _operate(ac, op: str) -> None:
     from msmart.device import AirConditioner as AC
+    if "," in op:
+        # a short history under the same hostile device: what one operation leaves behind is input to the next
+        for sub in op.split(","):
+            await _operate(ac, sub)
+        return
     if op == "refresh":
         await ac.refresh()
     elif op == "apply":
